@@ -489,7 +489,7 @@ pub mod pipeline {
     pub type Obs = (Vec<String>, u8);
 
     /// runs stages `a`, `b`, then an evaluation step with the `par` evaluator; returns the stale findings
-    pub fn run_pipeline(a: usize, b: usize, stack: usize, par: bool) -> Obs {
+    pub fn run_pipeline(a: usize, b: usize, stack: usize, evk: u8) -> Obs {
         let problem = RealP::new(2, -1.0, 2.0, FKind::ZeroSign, Instr::new());
         let stgs = stages();
         let pops: Vec<Vec<Individual<RealP>>> = stacks()[stack]
@@ -499,11 +499,12 @@ pub mod pipeline {
             .collect();
         let mut st = state_with::<RealP>(pops);
         st.insert(mahf::state::common::Evaluations(0));
-        if par {
-            st.insert_evaluator(Parallel::<RealP>::new());
-        } else {
-            st.insert_evaluator(Sequential::<RealP>::new());
-        }
+        // 0 Sequential, 1 Parallel, 2 a user evaluator that repairs the solution before assigning f of the repaired one
+        match evk {
+            1 => st.insert_evaluator(Parallel::<RealP>::new()),
+            2 => st.insert_evaluator(crate::props::c06::Repairing),
+            _ => st.insert_evaluator(Sequential::<RealP>::new()),
+        };
         let mut found = vec![];
         let mut oks = 0u8;
         let walk = |st: &mahf::State<'static, RealP>, after: &str, found: &mut Vec<String>| {
@@ -539,7 +540,7 @@ pub mod pipeline {
         }
         let ev = mahf::components::evaluation::PopulationEvaluator::<Global>::new();
         let r = catch(|| run_component(ev.as_ref(), &problem, &mut st));
-        walk(&st, if par { "the evaluation step (Parallel)" } else { "the evaluation step (Sequential)" }, &mut found);
+        walk(&st, ["the evaluation step (Sequential)", "the evaluation step (Parallel)", "the evaluation step (repairing user evaluator)"][evk as usize % 3], &mut found);
         if let Ok(Ok(())) = r {
             oks += 1;
             let pops = st.populations();
@@ -569,7 +570,7 @@ pub mod pipeline {
         let thorough = rep.tier == Tier::Thorough;
         let stgs = stages();
         let names: Vec<&'static str> = stgs.iter().map(|s| s.0).collect();
-        rep.alpha(&format!("component pipelines: every ordered pair of {} stages (selections, recombinations with insert_single / insert_both and pc 0.5 / 1, mutations, boundary repairs, replacements, stack utilities, evaluation) on 7 prepared stacks (evaluated, mixed, unevaluated, duplicates, six individuals with duplicates for the DE operators with two difference vectors, solutions that differ only in the sign of a zero), followed by an evaluation step with the Sequential or the Parallel evaluator; generator words of the first 2 (quick) / 3 (thorough) draws from a menu of 4", names.len()));
+        rep.alpha(&format!("component pipelines: every ordered pair of {} stages (selections, recombinations with insert_single / insert_both and pc 0.5 / 1, mutations, boundary repairs, replacements, stack utilities, evaluation) on 7 prepared stacks (evaluated, mixed, unevaluated, duplicates, six individuals with duplicates for the DE operators with two difference vectors, solutions that differ only in the sign of a zero), followed by an evaluation step with the Sequential evaluator, the Parallel evaluator, or a user evaluator that repairs solutions; generator words of the first 2 (quick) / 3 (thorough) draws from a menu of 4", names.len()));
         let depth = if thorough { 3 } else { 2 };
         let seed = rep.seed;
         let mut part = Part::new("components.pipelines");
@@ -581,12 +582,12 @@ pub mod pipeline {
             .map(|&(a, b)| {
                 let mut sub = Part::new("x");
                 for s in 0..stacks().len() {
-                    for par in [false, true] {
-                        if par && !thorough && (a + b + s) % 3 != 0 {
+                    for evk in 0..3u8 {
+                        if evk > 0 && !thorough && (a + b + s + evk as usize) % 3 != 0 {
                             continue;
                         }
                         let cfg = Cfg::prefix(&MENU4, depth, seed ^ ((a * 64 + b) as u64));
-                        let body = || run_pipeline(a, b, s, par);
+                        let body = || run_pipeline(a, b, s, evk);
                         tape::explore(&cfg, &body, &mut |prefix, out, _| {
                             sub.transitions += 3;
                             sub.traces += 1;
@@ -594,7 +595,7 @@ pub mod pipeline {
                                 Outcome::Done((found, oks)) => {
                                     sub.outcome(format!("{}-of-3-stages-ok", oks));
                                     if let Some(d) = found.first() {
-                                        sub.violate(sig(names[a], names[b], d), format!("stack {} ; {} ; {} ; evaluate: {}", stacks()[s].0, names[a], names[b], d), json!({"pipeline": [a, b, s], "par": par, "tape": prefix, "depth": depth, "seed": seed ^ ((a * 64 + b) as u64)}));
+                                        sub.violate(sig(names[a], names[b], d), format!("stack {} ; {} ; {} ; evaluate: {}", stacks()[s].0, names[a], names[b], d), json!({"pipeline": [a, b, s], "evk": evk, "tape": prefix, "depth": depth, "seed": seed ^ ((a * 64 + b) as u64)}));
                                     }
                                 }
                                 Outcome::Panic(m) => sub.machinery(format!("pipeline harness panicked: {}", m)),
@@ -618,11 +619,11 @@ pub mod pipeline {
 
     pub fn replay(case: &Value) -> Result<Vec<(String, String)>, String> {
         let p: Vec<usize> = case["pipeline"].as_array().ok_or("no pipeline")?.iter().map(|x| x.as_u64().unwrap() as usize).collect();
-        let par = case["par"].as_bool().unwrap_or(false);
+        let evk = case["evk"].as_u64().unwrap_or(0) as u8;
         let tape: Vec<u32> = case["tape"].as_array().ok_or("no tape")?.iter().map(|x| x.as_u64().unwrap() as u32).collect();
         let cfg = Cfg::prefix(&MENU4, case["depth"].as_u64().unwrap_or(2) as usize, case["seed"].as_u64().unwrap_or(0));
         let names: Vec<&'static str> = stages().iter().map(|s| s.0).collect();
-        let (out, _) = tape::run_once(&cfg, &tape, || run_pipeline(p[0], p[1], p[2], par));
+        let (out, _) = tape::run_once(&cfg, &tape, || run_pipeline(p[0], p[1], p[2], evk));
         Ok(match out {
             Outcome::Done((found, _)) => found.first().map(|d| (sig(names[p[0]], names[p[1]], d), d.clone())).into_iter().collect(),
             _ => vec![],
